@@ -36,6 +36,8 @@ def make_copy(edits):
 
 def run_check(prop, repo, runs, out):
     env = dict(os.environ, VERIF_REPO=repo, VERIF_OUT=out)
+    if os.environ.get("VERIF_MUTANT_MODE") != "neutral":
+        env["VERIF_STOP_EARLY"] = "1"
     cmd = [os.path.join(VERIF, "bin", "check"), prop, "--no-selftest"]
     if runs:
         cmd += ["--runs", str(runs)]
